@@ -49,6 +49,9 @@ def call_ext(it, ref, args, kwargs, node):
         if table is None or meth not in table:
             raise _CE(f"method {name} is not modelled")
         return table[meth](it, recv, args, kwargs, node)
+    hooks = getattr(it, "ext_hooks", None)
+    if hooks and name in hooks:
+        return hooks[name](it, args, kwargs, node)
     f = _EXT.get(name)
     if f is None:
         raise _CE(f"external callable {name} is not modelled")
